@@ -280,9 +280,9 @@ class Gen:
             mem = [s for s in w.handles[hi].state_objs if not getattr(s, "measured", False)]
             if len(mem) < 2:
                 return None
-            ts = r.sample(mem, 2)
+            ts = r.sample(mem, 3 if len(mem) >= 3 and r.random() < 0.25 else 2)
             en = "ce"
-            if not isinstance(ts[0], CustomState) and not isinstance(ts[1], CustomState) and ts[0].envelope is ts[1].envelope and r.random() < 0.5 and not ts[0].envelope.measured:
+            if len(ts) == 2 and not isinstance(ts[0], CustomState) and not isinstance(ts[1], CustomState) and ts[0].envelope is ts[1].envelope and r.random() < 0.5 and not ts[0].envelope.measured:
                 en = "env"
         dims = []
         for t in ts:
@@ -364,7 +364,7 @@ class Gen:
                 mem = [s for s in w.handles[hi].state_objs if not getattr(s, "measured", False)]
                 if len(mem) < 2:
                     return None
-                ts = r.sample(mem, 2)
+                ts = r.sample(mem, 3 if len(mem) >= 3 and r.random() < 0.2 else 2)
                 en = "ce"
         dims = []
         for t in ts:
